@@ -221,11 +221,17 @@ def main(argv):
 
     # 2. translator + proof gate
     gen_note = ""
+    gen_failed = None
     if spec.get("uses_gen"):
         rc, out = run_translator()
-        if rc != 0:
-            log(out); log("ERROR: translator failed"); return 2
         gen_note = out.strip()
+        if rc != 0:
+            # A table the translator reads could not be found in the current source (the code was
+            # restructured). The previously generated file stays in place, the check goes on with it:
+            # if the implementation still satisfies everything explored, the lost tie is reported as
+            # a violation without a failing input; a failing input found below takes precedence.
+            log(out); log("translator could not regenerate every Gen_*.v from the current source")
+            gen_failed = out.strip()
     # C11: regenerated index obligations — unprovable ones are taken out (and reported below)
     ob_failing, ob_total, ob_pinned = [], 0, []
     if pid == "C11":
@@ -381,6 +387,14 @@ def main(argv):
         violations.append({"line": "VIOLATION property=%s replay=%s no-failing-input-found" % (pid, path), "sig": "correspondence"})
     elif mismatch:
         notes.append("%d model/implementation disagreements besides the violations" % len(mismatch))
+    if gen_failed and not violations:
+        payload = {"property": pid, "kind": "tie to the source lost: the translator cannot regenerate its tables from the current tree",
+                   "no_longer_checks": "translator (harness gen): " + gen_failed[-1500:],
+                   "note": "the check ran with the previously generated coq/Gen_*.v; no explored case violates the executable spec"}
+        path = write_replay("%s_translator.json" % pid, payload)
+        violations.append({"line": "VIOLATION property=%s replay=%s no-failing-input-found" % (pid, path), "sig": "translator"})
+    elif gen_failed:
+        notes.append("translator could not regenerate every table: " + gen_failed[-300:])
     if not (proof_ok and not forb and not bad_assum):
         why = {"failing": failing_file, "forbidden_tokens": forb, "bad_assumptions": bad_assum,
                "make_tail": mk_out[-1500:]}
